@@ -780,6 +780,25 @@ func checkSumsIndex(p *Prog, r *Report) {
 			if lk, ok := x.Tuple.(*ssa.Lookup); ok && x.Index == 0 {
 				return okMapValues(p, lk.X, func(v ssa.Value, at ssa.Instruction) string { return okIdx(v, at, seen, depth+1) })
 			}
+			// i, found := st.findMatch(…): every return of the helper yields a bounded value
+			if call, ok := x.Tuple.(*ssa.Call); ok {
+				if callee := call.Common().StaticCallee(); callee != nil && callee.Blocks != nil && isModFunc(callee) {
+					n := 0
+					for _, b := range callee.Blocks {
+						ret, ok := lastInstr(b).(*ssa.Return)
+						if !ok || x.Index >= len(ret.Results) {
+							continue
+						}
+						n++
+						if why := okIdx(ret.Results[x.Index], ret, seen, depth+1); why != "" {
+							return why + " (returned by " + funcKey(callee) + ")"
+						}
+					}
+					if n > 0 {
+						return ""
+					}
+				}
+			}
 		case *ssa.Lookup:
 			if _, isMap := x.X.Type().Underlying().(*types.Map); isMap {
 				return okMapValues(p, x.X, func(v ssa.Value, at ssa.Instruction) string { return okIdx(v, at, seen, depth+1) })
@@ -869,4 +888,229 @@ func onlyCalled(mc *ssa.MakeClosure) bool {
 		}
 	}
 	return true
+}
+
+// checkWireFullReads — C18/TRANSPORT-READS-FULL: "regardless of how the
+// transport buffers and chunks the two directions". Outside package rsyncwire
+// C17/FULL-READS already demands full reads of Conn.Reader; inside it, every
+// direct Read on a transport reader (a value loaded from a Reader/R field of
+// MultiplexReader, Conn, CountingReader, or any io.Reader-typed field of the
+// package's types) must either be a pass-through — its byte count is what the
+// enclosing function returns as its own count (CountingReader.Read) — or not
+// exist: fixed-size items are read with io.ReadFull / binary.Read. A bare Read
+// whose count is dropped or not looped over decodes a half-filled buffer as
+// soon as the transport delivers fewer bytes than asked.
+func checkWireFullReads(p *Prog, r *Report, rule string) {
+	r.Rule(rule, "inside package rsyncwire every direct Read on a reader held in a field (MultiplexReader.Reader, Conn.Reader, CountingReader.R) is a pass-through whose byte count becomes the enclosing function's own returned count; fixed-size items go through io.ReadFull / binary.Read (counted as instances): no decode depends on a single Read filling its buffer, whatever the transport's chunking", 3)
+	n := 0
+	for _, fn := range p.FuncsInPkg(pkgWire) {
+		if fn.Blocks == nil {
+			continue
+		}
+		allCalls(fn, func(c ssa.CallInstruction) {
+			switch calleeName(c) {
+			case "io.ReadFull", "encoding/binary.Read", "io.ReadAtLeast":
+				n++
+				r.OK(rule, funcKey(fn)+" full read", p.Pos(instrPos(c)), calleeName(c))
+				return
+			}
+			if !c.Common().IsInvoke() || c.Common().Method.Name() != "Read" {
+				return
+			}
+			sig := c.Common().Signature()
+			if sig.Params().Len() != 1 || sig.Results().Len() != 2 {
+				return
+			}
+			if _, f := loadedField(c.Common().Value); f == nil {
+				return // not a reader kept in a field
+			}
+			n++
+			call, isCall := c.(*ssa.Call)
+			pass := false
+			if isCall {
+				for _, ref := range *call.Referrers() {
+					ex, ok := ref.(*ssa.Extract)
+					if !ok || ex.Index != 0 {
+						continue
+					}
+					for _, u := range *ex.Referrers() {
+						if ret, ok := u.(*ssa.Return); ok && len(ret.Results) > 0 && ret.Results[0] == ssa.Value(ex) {
+							pass = true
+						}
+					}
+				}
+			}
+			r.Cond(pass, rule, funcKey(fn)+" bare Read on a transport reader", p.Pos(instrPos(c)), "the byte count of this Read is not handed on as the function's own count: a transport that delivers fewer bytes than asked (tiny buffers, a segment cut inside a header) makes the caller decode a partly stale buffer")
+		})
+	}
+	if n == 0 {
+		r.Unk(rule, "reads in package rsyncwire", "-", "no read found")
+	}
+}
+
+// checkDecoderRejects — C15/DECODER-REJECTS: "a conforming stream is
+// accepted". Besides I/O errors, the file-list entry decoder may refuse an
+// entry only for a length that is out of range: every error the decoder
+// constructs itself (fmt.Errorf / errors.New) sits in a block that is entered
+// only over branches of the form len < 0, len ≥ B or len > B with B a
+// constant ≥ 1024 or a constant minus another length. Any other rejection
+// (an equality test on a length or a flag, a lower bound above zero) refuses
+// entries that protocol 27 allows — e.g. an entry whose transmitted name
+// suffix is empty because it repeats or is a prefix of the previous name.
+func checkDecoderRejects(p *Prog, r *Report) {
+	rule := "C15/DECODER-REJECTS"
+	r.Rule(rule, "the file-list entry decoder (receiveFileEntry and its helpers) constructs an error of its own only in blocks entered over range tests on a length read from the wire: len < 0, len ≥ B or len > B (B a constant ≥ 1024, or a constant minus another length); equality tests and lower bounds above zero reject entries that protocol 27 allows (frozen vocabulary: a new kind of rejection has to be read against the protocol and added)", 2)
+	g := p.ModGraph()
+	dec := anchorFunc(p, r, pkgReceiver, "Transfer", "receiveFileEntry")
+	if dec == nil {
+		return
+	}
+	var rangeTest func(cond ssa.Value, taken bool) bool
+	rangeTest = func(cond ssa.Value, taken bool) bool {
+		for {
+			if u, ok := cond.(*ssa.UnOp); ok && u.Op == token.NOT {
+				cond, taken = u.X, !taken
+				continue
+			}
+			break
+		}
+		bo, ok := cond.(*ssa.BinOp)
+		if !ok {
+			return false
+		}
+		op := bo.Op
+		if !taken { // the false edge of x < K is x ≥ K, …
+			switch op {
+			case token.LSS:
+				op = token.GEQ
+			case token.LEQ:
+				op = token.GTR
+			case token.GTR:
+				op = token.LEQ
+			case token.GEQ:
+				op = token.LSS
+			default:
+				return false
+			}
+		}
+		bigBound := func(v ssa.Value) bool {
+			v = stripConv(v)
+			if k, ok := constInt(v); ok {
+				return k >= 1024
+			}
+			if sub, ok := v.(*ssa.BinOp); ok && sub.Op == token.SUB {
+				if k, ok := constInt(stripConv(sub.X)); ok && k >= 1024 {
+					return true
+				}
+			}
+			return false
+		}
+		isZero := func(v ssa.Value) bool { k, ok := constInt(stripConv(v)); return ok && k == 0 }
+		switch op {
+		case token.LSS: // x < 0  |  B < x
+			return isZero(bo.Y) || bigBound(bo.X)
+		case token.GTR: // x > B  |  0 > x
+			return bigBound(bo.Y) || isZero(bo.X)
+		case token.GEQ: // x ≥ B
+			return bigBound(bo.Y)
+		case token.LEQ: // B ≤ x
+			return bigBound(bo.X)
+		}
+		return false
+	}
+	// a predicate helper (nl.overflows()): its result is true only over range tests
+	var trueIsRange func(v ssa.Value, depth int) bool
+	trueIsRange = func(v ssa.Value, depth int) bool {
+		if depth > 4 {
+			return false
+		}
+		switch x := v.(type) {
+		case *ssa.Const:
+			return false // a constant true is judged at its phi edge
+		case *ssa.BinOp:
+			return rangeTest(x, true)
+		case *ssa.Phi:
+			for i, e := range x.Edges {
+				if k, isK := e.(*ssa.Const); isK {
+					if k.Value != nil && k.Value.String() == "false" {
+						continue
+					}
+					pr := x.Block().Preds[i]
+					iff, isIf := lastInstr(pr).(*ssa.If)
+					if !isIf || !rangeTest(iff.Cond, pr.Succs[0] == x.Block()) {
+						return false
+					}
+					continue
+				}
+				if !trueIsRange(e, depth+1) {
+					return false
+				}
+			}
+			return true
+		}
+		return false
+	}
+	baseRangeTest := rangeTest
+	rangeTest = func(cond ssa.Value, taken bool) bool {
+		if baseRangeTest(cond, taken) {
+			return true
+		}
+		call, ok := cond.(*ssa.Call)
+		if !ok || !taken {
+			return false
+		}
+		callee := call.Common().StaticCallee()
+		if callee == nil || callee.Blocks == nil || pkgPathOfFunc(callee) != pkgReceiver || callee.Signature.Results().Len() != 1 {
+			return false
+		}
+		nret := 0
+		for _, b := range callee.Blocks {
+			if ret, ok := lastInstr(b).(*ssa.Return); ok {
+				nret++
+				if !trueIsRange(ret.Results[0], 0) {
+					return false
+				}
+			}
+		}
+		return nret > 0
+	}
+	n := 0
+	for _, u := range g.unitFuncs(dec) {
+		allCalls(u, func(c ssa.CallInstruction) {
+			if cn := calleeName(c); cn != "fmt.Errorf" && cn != "errors.New" {
+				return
+			}
+			n++
+			// every way into the block of the construction
+			bad := ""
+			seen := map[*ssa.BasicBlock]bool{}
+			var up func(b *ssa.BasicBlock)
+			up = func(b *ssa.BasicBlock) {
+				if seen[b] || bad != "" {
+					return
+				}
+				seen[b] = true
+				if len(b.Preds) == 0 {
+					bad = "reached unconditionally"
+					return
+				}
+				for _, pr := range b.Preds {
+					iff, isIf := lastInstr(pr).(*ssa.If)
+					if !isIf {
+						up(pr) // a join or fall-through block
+						continue
+					}
+					taken := pr.Succs[0] == b
+					if !rangeTest(iff.Cond, taken) {
+						bad = "entered over the branch `" + iff.Cond.String() + "` (" + map[bool]string{true: "true", false: "false"}[taken] + " edge) at " + p.Pos(instrPos(iff))
+					}
+				}
+			}
+			up(c.Block())
+			r.Cond(bad == "", rule, funcKey(u)+" constructs a protocol error", p.Pos(instrPos(c)), bad+": not a range test on a wire length; the decoder refuses an entry that the protocol may allow")
+		})
+	}
+	if n == 0 {
+		r.Unk(rule, "decoder rejections", p.Pos(dec.Pos()), "the decoder no longer constructs any error of its own: the length bounds (C08, C17) may have gone, re-read")
+	}
 }
